@@ -507,10 +507,13 @@ func (bwu *BaseWorkUnit) UnredactedStatus() *StatusFileData {
 
 // Release releases this unit of work, deleting its files.
 func (bwu *BaseWorkUnit) Release(force bool) error {
+	verifhook.At("mem.lock.before", bwu.unitID)
+	defer verifhook.At("mem.lock.released", bwu.unitID)
 	bwu.statusLock.Lock()
 	defer bwu.statusLock.Unlock()
 	attemptsLeft := 3
 	for {
+		verifhook.At("release.before_remove", bwu.unitID)
 		err := bwu.fs.RemoveAll(bwu.UnitDir())
 		if force {
 			break
@@ -530,6 +533,7 @@ func (bwu *BaseWorkUnit) Release(force bool) error {
 
 		break
 	}
+	verifhook.At("release.removed", bwu.unitID)
 	bwu.w.activeUnitsLock.Lock()
 	defer bwu.w.activeUnitsLock.Unlock()
 	delete(bwu.w.activeUnits, bwu.unitID)
